@@ -73,6 +73,10 @@ func kindType(k string) reflect.Type {
 		return reflect.TypeOf([]string(nil))
 	case "map":
 		return reflect.TypeOf(map[string]int32(nil))
+	case "set":
+		return reflect.TypeOf(map[string]struct{}(nil))
+	case "iset":
+		return reflect.TypeOf(map[int32]struct{}(nil))
 	case "sub":
 		return subType
 	case "psub":
@@ -135,11 +139,26 @@ func value(t reflect.Type, val int) reflect.Value {
 				f.Set(reflect.ValueOf(s))
 			}
 		case reflect.Map:
-			m := map[string]int32{}
-			for j := 0; j < 1+x%5; j++ {
-				m[fmt.Sprint("k", j)] = int32(j + x)
+			switch f.Type() {
+			case reflect.TypeOf(map[string]struct{}(nil)):
+				m := map[string]struct{}{}
+				for j := 0; j < 1+x%7; j++ {
+					m[fmt.Sprint("e", j*x)] = struct{}{}
+				}
+				f.Set(reflect.ValueOf(m))
+			case reflect.TypeOf(map[int32]struct{}(nil)):
+				m := map[int32]struct{}{}
+				for j := 0; j < 1+x%7; j++ {
+					m[int32(j*x+1)] = struct{}{}
+				}
+				f.Set(reflect.ValueOf(m))
+			default:
+				m := map[string]int32{}
+				for j := 0; j < 1+x%5; j++ {
+					m[fmt.Sprint("k", j)] = int32(j + x)
+				}
+				f.Set(reflect.ValueOf(m))
 			}
-			f.Set(reflect.ValueOf(m))
 		case reflect.Struct:
 			f.Field(0).SetInt(int64(x))
 			f.Field(1).SetString(fmt.Sprint("sub", x))
@@ -318,7 +337,7 @@ func trunc(s string) string {
 	return s
 }
 
-var kinds = []string{"bool", "int32", "int64", "float64", "string", "bytes", "ints", "strs", "map", "sub", "psub"}
+var kinds = []string{"bool", "int32", "int64", "float64", "string", "bytes", "ints", "strs", "map", "set", "iset", "sub", "psub"}
 
 func genCase(rt *rapid.T) Case {
 	var c Case
